@@ -168,6 +168,7 @@ def rule_add_nodes_shape(ctx, res):
                 a = strip_transparent(e[2][1])
                 if is_param(a, 'node'):
                     continue
+                a = strip_transparent(lib.resolve_map_element(ctx, a, res))     # `.map(|h| Node::as_questionable(..))` feeding the loop
                 if a[0] == 'call' and a[1] == 'node::Node::as_questionable':
                     n_wrap += 1
                     # id/addr come from the loop element
